@@ -476,6 +476,10 @@ func GenC03(seed uint64, tier string) *Plan {
 	g.genSetup()
 	n := g.stepCount()
 	hm := []string{"OPTIONS", "GET", "HEAD", "PUT", "DELETE", "MKCOL", "COPY", "MOVE", "PROPFIND", "PROPPATCH", "LOCK", "POST"}
+	if g.r.Chance(0.03) {
+		g.plan.Config.RootForm = "missing-parent"
+		g.plan.Config.Neighbour = false
+	}
 	reconfAt := -1
 	if g.r.Chance(0.12) {
 		reconfAt = 1 + g.r.Intn(n)
